@@ -4,7 +4,7 @@ from __future__ import annotations
 
 from typing_extensions import Self
 
-from openfisca_core import errors
+from openfisca_core import errors, periods
 
 from ._build_default_simulation import _BuildDefaultSimulation
 from ._type_guards import is_variable_dated
@@ -141,7 +141,10 @@ class _BuildFromVariables:
         """
         for variable, value in self.variables.items():
             if is_variable_dated(dated_variable := value):
-                for period, dated_value in dated_variable.items():
+                for period, dated_value in sorted(
+                    dated_variable.items(),
+                    key=lambda item: _period_length_key(item[0]),
+                ):
                     self.simulation.set_input(variable, period, dated_value)
 
         return self
@@ -212,6 +215,11 @@ class _BuildFromVariables:
                 self.simulation.set_input(variable, period, undated_value)
 
         return self
+
+
+def _period_length_key(period_like) -> tuple[int, int]:
+    period = periods.period(period_like)
+    return periods.unit_weight(period.unit), period.size
 
 
 def _person_count(params: Variables) -> int:
